@@ -1,9 +1,141 @@
 package main
 
+import (
+	"fmt"
+	"go/ast"
+	"go/types"
+	"strings"
+)
+
 func init() { props["C02"] = checkC02 }
 
 func checkC02(c *Ctx) {
-	c.Decides("EOFLOOP: every loop of the reader packages either ranges over a finite collection, is a counter loop, or (a) consumes input on every path to its back edge and (b) has no executable back edge once every input source returns its end-of-input value (greatest fixpoint of an abstract interpretation started from arbitrary loop-carried values) - so it terminates on every finite input")
+	c.Decides("EOFLOOP: every loop of the reader packages either ranges over a finite collection, is a counter loop, or (a) consumes input on every path to its back edge, leaving nothing pushed back, and (b) has no executable back edge once every input source returns its end-of-input value (greatest fixpoint of an abstract interpretation started from arbitrary loop-carried values, callees inlined) - so it terminates on every finite input")
+	c.Decides("RECUR: recursion in the readers only descends into an element obtained by ranging over a field of the argument (depth bounded by the decoded document); EXIT: no statically resolved call path from a reader entry point to os.Exit, log.Fatal*, io.ExitWithMessage or a panic() in repository code")
+	c.Decides("CONTRA-IDX: no constant index on a value follows a length test on that value whose failing branch does not leave; no index is used after being decremented past the loop guard that bounded it; CONTRA-NIL: in the readers and in the cone of the operations applied to a delivered tree (ReinitIndexes, Newick, Nodes, Edges, Tips and callees) no pointer that the function itself compares with nil is dereferenced where no successful nil test protects it")
+	c.Decides("GO-CLOSE/ERRFLOW: the reader goroutine closes its channel on every path, and every parse error reaches a record's Err before that (shared with C13/C11)")
+	c.DoesNotDecide("absence of all runtime panics (only those contradicting the function's own guard are decided; index sites the compiler cannot prove are not reported), stack exhaustion on deeply nested input, memory; encoding/xml, encoding/json, bufio and strconv are trusted not to panic or hang")
+	clauseP := "it never panics, kills the process or loops forever"
 	c.checkEOFLoops("EOFLOOP")
+	// CONTRA-IDX over the reader packages
+	nidx := 0
+	readers := c.AllFuncs(readerPkgs...)
+	for _, fi := range readers {
+		nidx += c.contraIdx1("CONTRA-IDX", fi.Pkg.TypesInfo, funcName(fi.Obj), fi.Decl.Body, clauseP)
+		nidx += c.contraIdx2("CONTRA-IDX", fi.Pkg.TypesInfo, funcName(fi.Obj), fi.Decl.Body, clauseP)
+	}
+	c.Trivial("CONTRA-IDX", "scope", 0, fmt.Sprintf("%d functions of %s scanned, %d contradictions", len(readers), strings.Join(readerPkgs, ","), nidx))
+	// CONTRA-NIL: readers + cone of the operations on a delivered tree
+	var roots []*FuncInfo
+	for _, n := range []string{"ReinitIndexes", "Newick", "Nodes", "Edges", "Tips", "InternalEdges", "TipEdges", "AllTipNames"} {
+		if fi := c.Func("tree", "Tree", n); fi != nil {
+			roots = append(roots, fi)
+		}
+	}
+	cone := c.cone(roots, 5)
+	nnil := 0
+	scanned := map[*types.Func]bool{}
+	for _, fi := range append(append([]*FuncInfo{}, readers...), cone...) {
+		if scanned[fi.Obj] {
+			continue
+		}
+		scanned[fi.Obj] = true
+		nnil += c.contraNil("CONTRA-NIL", fi, "Every delivered tree can be traversed, indexed and written back without crashing")
+	}
+	c.Trivial("CONTRA-NIL", "scope", 0, fmt.Sprintf("%d functions scanned (readers + cone of ReinitIndexes/Newick/Nodes/Edges/Tips), %d contradictions", len(scanned), nnil))
+	c.Extra["contra_nil_functions"] = len(scanned)
+	// reader entry points
+	var entries []*FuncInfo
+	for _, e := range [][3]string{{"io/newick", "Parser", "Parse"}, {"io/nexus", "Parser", "Parse"}, {"io/phyloxml", "Parser", "Parse"}, {"io/nextstrain", "Parser", "Parse"},
+		{"io/utils", "", "ReadTreeReader"}, {"io/utils", "", "ReadMultiTrees"}, {"io/fileutils", "", "ReadUntilSemiColon"}, {"io/fileutils", "", "Readln"},
+		{"io/phyloxml", "PhyloXML", "FirstTree"}, {"io/phyloxml", "PhyloXML", "IterateTrees"}, {"io/nextstrain", "Nextstrain", "FirstTree"}, {"io/nextstrain", "Nextstrain", "IterateTrees"},
+		{"io/nexus", "Nexus", "FirstTree"}, {"io/nexus", "Nexus", "IterateTrees"}} {
+		if fi := c.Func(e[0], e[1], e[2]); fi != nil {
+			entries = append(entries, fi)
+		}
+	}
+	// RECUR
+	nrec := 0
+	inReader := map[string]bool{}
+	for _, r := range readerPkgs {
+		inReader[modPath+"/"+r] = true
+	}
+	for _, fi := range c.cone(entries, 8) {
+		if !inReader[fi.Pkg.PkgPath] {
+			continue // traversals of a finished tree are bounded by the tree
+		}
+		info := fi.Pkg.TypesInfo
+		for _, call := range callsIn(fi.Decl.Body, true) {
+			if calleeOf(info, call) != fi.Obj {
+				continue
+			}
+			nrec++
+			key := funcName(fi.Obj) + "/recursion"
+			p0 := paramObj(info, fi.Decl, 0)
+			good := false
+			if len(call.Args) > 0 && p0 != nil {
+				arg := unparen(call.Args[0])
+				if u, ok := arg.(*ast.UnaryExpr); ok {
+					arg = u.X
+				}
+				if o := identObj(info, arg); o != nil {
+					for _, s := range stackTo(fi.Decl.Body, call) {
+						if rs, ok := s.(*ast.RangeStmt); ok && rs.Value != nil && identObj(info, rs.Value) == o {
+							if fv, x := fieldOfSel(info, rs.X); fv != nil && identObj(info, x) == p0 {
+								good = true
+							}
+						}
+					}
+				}
+			}
+			c.Check(good, "RECUR", key, call.Pos(), "recurses on an element of a field of its argument: depth bounded by the decoded document", "the recursion does not descend into an element obtained by ranging over a field of its first argument: termination is not structural").Clause = "reading terminates"
+		}
+	}
+	if nrec == 0 {
+		c.Undecided("RECUR", "readers/recursion", 0, "no recursive reader function found (the PhyloXML / Nextstrain converters are expected to be)")
+	}
+	// EXIT
+	paths := c.exitPaths(entries)
+	if len(paths) == 0 {
+		c.OK("EXIT", "readers/no-process-exit", 0, fmt.Sprintf("no call path from the %d reader entry points to os.Exit / log.Fatal / ExitWithMessage / panic in repository code", len(entries)))
+	}
+	for i, p := range paths {
+		c.Violation("EXIT", fmt.Sprintf("readers/%s", p[len(p)-2]), entries[0].Decl.Pos(), fmt.Sprintf("a reader can end the process: %s (#%d)", strings.Join(p, " -> "), i+1)).Clause = clauseP
+	}
+	// GO-CLOSE + ERRFLOW on the reader goroutine
+	sites := c.goSites(c.All)
+	for _, s := range sites {
+		if strings.HasSuffix(s.pkg.PkgPath, "/io/utils") {
+			c.goClose("GO-CLOSE", s.launcher, s.ltype, s.pkg, s.fnName, sites, "reading terminates and either reports an error or delivers trees")
+		}
+	}
+	c.multiTreeErrFlow()
+	// positive controls on the fixture
+	if fx := c.Fixture(); fx != nil {
+		sub := c.subCtx(fx)
+		hits := map[string]bool{}
+		for _, fi := range sub.AllFuncs() {
+			if sub.contraIdx1("CONTRA-IDX", fi.Pkg.TypesInfo, fi.Obj.Name(), fi.Decl.Body, "") > 0 {
+				hits["IDX1"] = true
+			}
+			if sub.contraIdx2("CONTRA-IDX", fi.Pkg.TypesInfo, fi.Obj.Name(), fi.Decl.Body, "") > 0 {
+				hits["IDX2"] = true
+			}
+			if sub.contraNil("CONTRA-NIL", fi, "") > 0 {
+				hits["NIL"] = true
+			}
+			if fi.Obj.Name() == "C02ExitDeep" && len(sub.exitPaths([]*FuncInfo{fi})) > 0 {
+				hits["EXIT"] = true
+			}
+		}
+		c.Control("CONTRA-IDX-1", hits["IDX1"], "fixture.C02IdxAfterLenTest indexes after a non-leaving length test")
+		c.Control("CONTRA-IDX-2", hits["IDX2"], "fixture.C02IdxAfterDecrement indexes after decrementing past its guard")
+		c.Control("CONTRA-NIL", hits["NIL"], "fixture.C02NilBelief dereferences a pointer it compares with nil")
+		c.Control("EXIT", hits["EXIT"], "fixture.C02ExitDeep reaches os.Exit through a helper")
+	}
 	c.Floor("EOFLOOP", 40)
+	c.Floor("RECUR", 2)
+	c.Floor("GO-CLOSE", 1)
+	c.Floor("ERRFLOW", 5)
+	c.Floor("CONTROL", 4)
 }
